@@ -85,6 +85,12 @@ def catalogue(cellname, quick):
     cat["Sym2[P1,P2,P1]"] = E.Symmetric(sym, [lv["P1"], lv["P2"], lv["P1"]])
     # non-symmetric "symmetry" map (a repeated block)
     cat["Rep[P1,P2]"] = E.Symmetric({(0,): 0, (1,): 1, (2,): 0}, [lv["P1"], lv["P2"]])
+    # "symmetry" maps that are bijections (reference size == physical size) but not the row-major identity:
+    # a permuted vector block and a column-major 2x2 tensor, alone and inside a mixed element
+    cat["Perm[P1,P2]"] = E.Symmetric({(0,): 1, (1,): 0}, [lv["P1"], lv["P2"]])
+    cat["ColMajor[P1,P2,DG0,L2P]"] = E.Symmetric({(0, 0): 0, (1, 0): 1, (0, 1): 2, (1, 1): 3}, [lv["P1"], lv["P2"], lv["DG0"], lv["L2P"]])
+    cat["Mixed[ColMajor,P1]"] = E.Mixed([cat["ColMajor[P1,P2,DG0,L2P]"], lv["P1"]])
+    cat["Mixed[P1,Perm]"] = E.Mixed([lv["P1"], cat["Perm[P1,P2]"]])
     # nesting: mixed of mixed, mixed containing symmetric, symmetric inside mixed inside mixed
     inner = ["Mixed[P1,RT]", "Mixed[RT,L2P]", "Mixed[N1,P1v]", "Sym2[P1]", "Sym2[RT]", "Mixed[Regge,P1]"]
     for a in inner:
